@@ -29,12 +29,18 @@ class AbstractAssert(Exception):
         Exception.__init__(self, msg)
         self.site = site
 
+    def __reduce__(self):  # picklable across the worker pool (an unpicklable exception hangs Pool.map)
+        return (AbstractAssert, (self.args[0] if self.args else "", self.site))
+
 
 class AbstractRaise(Exception):
     def __init__(self, exc, site):
         Exception.__init__(self, "%s: %s" % (type(exc).__name__ if not isinstance(exc, str) else exc, exc))
         self.exc = exc
         self.site = site
+
+    def __reduce__(self):
+        return (AbstractRaise, (str(self.exc) if not isinstance(self.exc, str) else self.exc, self.site))
 
 
 class StepLimit(Exception):
